@@ -54,7 +54,18 @@ def gen_stalls(rng, p=0.3):
     """Fault plan: 0-2 threads descheduled for a while at the n-th executed line of a runtime function."""
     if rng.random() >= p:
         return []
-    return [{"func": rng.choice(STALL_FUNCS), "nth": rng.randint(1, 8), "dur": rng.choice([0.02, 0.08, 0.15, 0.3, 1.0])} for _ in range(rng.choice([1, 1, 2]))]
+    out = []
+    for _ in range(rng.choice([1, 1, 2])):
+        st = {"func": rng.choice(STALL_FUNCS), "nth": rng.randint(1, 8), "dur": rng.choice([0.02, 0.08, 0.15, 0.3, 1.0])}
+        if rng.random() < 0.5:
+            st["after"] = True  # count lines only from the moment a termination trigger fired
+        if rng.random() < 0.5:
+            # ... and resumed when another thread has got as far as the k-th next line of one of these
+            st["until"] = rng.choice(["_manage_runners", "_aclose_runners", "aclose", "run", "_accept_services", "_unqueue_payloads", "_launch_runners", "manage_payloads"])
+            st["k"] = rng.randint(1, 7)
+            st["dur"] = rng.choice([1.0, 3.0])
+        out.append(st)
+    return out
 
 
 def liveness_bound(h):
